@@ -1,4 +1,4 @@
-import SSVerif.Model.ProtocolApi
+import SSVerif.Model.ProtocolPred
 import Driver.Util
 /-! driver sub-command `c09`: replays a transcript of API calls (call + the data-dependent part of what
 the implementation returned) on the protocol automaton; prints return class and state summary -/
@@ -121,15 +121,8 @@ def showInst (s : ApiState) (created processing : Bool) (fr : Nat) : String :=
 
 def countSub (k : SubKind) (l : List (SubKind × Nat)) : Nat := (l.filter fun p => p.1 == k).length
 
-/-- the model state of the driver: the automaton's state and what has been seen of each decoder -/
-structure DState where
-  x : XState := x0
-  sa : Seen := {}
-  sb : Seen := {}
-
-def DState.seen (d : DState) : Inst → Seen | .a => d.sa | .b => d.sb
-def DState.setSeen (d : DState) (i : Inst) (m : Seen) : DState :=
-  match i with | .a => { d with sa := m } | .b => { d with sb := m }
+/-- the model state of the driver is the predicted state `PState` of `Model/ProtocolPred.lean` -/
+abbrev DState := PState
 
 def showState (d : DState) : String :=
   let x := d.x
@@ -218,6 +211,7 @@ structure Obs where
   nret : Nat := 0
   w : WordInfo := .echo
   p : PhoneInfo := .echo
+  k : Option Nat := none
 
 /-- leading observation tokens of a line: `F <a> <b>` = frame counters the implementation shows after the call,
 `N <n>` = count returned by an audio block, `W <class> <id> <base>` = what is known about the word of an add / lookup
@@ -234,6 +228,9 @@ def pObs : List String → Obs × List String
     let w : WordInfo := match cls with
       | "fresh" => .fresh id | "altof" => .altOf base id | "present" => .present | "absent" => .absent | _ => .echo
     ({ r.1 with w := w }, r.2)
+  | "K" :: n :: rest =>
+    let r := pObs rest
+    ({ r.1 with k := parseNat n }, r.2)
   | "P" :: cls :: rest =>
     let r := pObs rest
     ({ r.1 with p := match cls with | "valid" => .valid | "invalid" => .invalid | _ => .echo }, r.2)
@@ -242,34 +239,31 @@ def pObs : List String → Obs × List String
 def stepLine (d : DState) (ws0 : List String) : DState × String :=
   let (o, ws) := pObs ws0
   match ws with
-  | ["reset"] => ({}, "reset")
+  | ["reset"] => (p0, "reset")
   | ["apimap"] => (d, apiMapLine)
   | _ =>
     match parseX ws with
     | none => (d, "bad-op")
     | some c0 =>
       let x := d.x
-      -- the model steps its own prediction of the data-dependent flags where it has one
-      let c := match instOfX c0 with
-        | some i => (d.seen i).predict o.w o.p c0
-        | none => c0
-      let r := xStep x c
+      let fed := match instOfX c0 with | some .a => o.fa | some .b => o.fb | none => 0
+      let pc : PCall := { call := c0, obs := { fed := fed, nret := o.nret, w := o.w, p := o.p, k := o.k } }
+      -- the model steps its own prediction of the data-dependent flags where it has one: all of that is `pStep`
+      let c := pPredict d pc
+      let r := pStep d pc
+      let lab := if r.2 == Ret.oop then "oop" else if decide (outOfOrderX x c) then "ooo" else "in"
       let cls := match c with
-        | .base (.dec i dc) _ =>
+        | .base (.dec i _) _ =>
           let s := x.sys.inst i
           let fresh := match s.search with | .fresh => "f" | .used => "u" | .none => "n"
-          s!"{classify s dc r.2} {fresh}"
-        | _ => if r.2 == Ret.oop then "oop -" else if decide (outOfOrderX x c) then "ooo -" else "in -"
-      let noop := !cls.startsWith "in"
-      let d1 : DState := { d with x := r.1 }
-      let d2 := match instOfX c with
-        | some i => d1.setSeen i ((d.seen i).update c r.2 noop o.nret (match i with | .a => o.fa | .b => o.fb) o.w)
-        | none => d1
-      -- a decoder that no longer exists has nothing to remember
-      let d3 : DState := { d2 with sa := if r.1.sys.da.refs = 0 then {} else d2.sa,
-                                   sb := if r.1.sys.db.refs = 0 then {} else d2.sb }
-      (d3, s!"{showRet r.2} | {showState d3} | {cls} {c.kind.name}")
+          s!"{lab} {fresh}"
+        | _ => s!"{lab} -"
+      -- `L`: the `last` flag of this `…_next` call was predicted from the remaining-element table, not taken from the transcript
+      let mark := match nextId c0, instOfX c0 with
+        | some id, some i => if (remOf (d.rem i) id).isSome then " L" else ""
+        | _, _ => ""
+      (r.1, s!"{showRet r.2} | {showState r.1} | {cls} {c.kind.name}{mark}")
 
-def main : IO Unit := runLoop stepLine ({} : DState)
+def main : IO Unit := runLoop stepLine p0
 
 end Driver.C09
